@@ -884,7 +884,12 @@ func (c *fnCtx) unop(in *ssa.UnOp) {
 	case token.MUL:
 		c.nilCheck(in.X, in.Pos())
 		el := in.X.Type().Underlying().(*types.Pointer).Elem()
-		c.set(in, c.load(c.val(in.X), el))
+		v := c.load(c.val(in.X), el)
+		if g, ok := in.X.(*ssa.Global); ok && v.K == KIface && c.eng.initOnlyNonNil(g) {
+			// package-level error values initialised once (errors.New / fmt.Errorf in init) are never nil
+			c.em.assert("(not (= " + v.T[0] + " 0))")
+		}
+		c.set(in, v)
 	case token.NOT:
 		c.set(in, bv(c.em.define("b", "Bool", "(not "+c.val(in.X).T[0]+")")))
 	case token.SUB:
